@@ -108,3 +108,6 @@ def run(ctx, chk, tier):
     # effect prerequisite: the setters neither write to caller/receiver arrays nor keep an unsound memo
     from . import c10
     c10.purity(ctx, chk, only=("Scores.threshold_at_",), strict=False)
+    # the setters search the object's score arrays (and any per-object copy of them): ascending after every constructor, subclasses included (R01.4)
+    from . import c01
+    c01.constructor_sorted(ctx, chk)
